@@ -27,7 +27,9 @@ func writerChain(v ssa.Value) (chain []string, ctors []ssa.Value, base ssa.Value
 			if sc := x.Call.StaticCallee(); sc != nil && len(x.Call.Args) >= 1 {
 				full := funcFullName(sc)
 				switch {
-				case full == rootPkgPath+".newCountHashWriter":
+				case full == rootPkgPath+".newCountHashWriter",
+					strings.HasPrefix(full, rootPkgPath+".") && sc.Signature.Results().Len() == 1 && strings.HasSuffix(sc.Signature.Results().At(0).Type().String(), ".countHashWriter") && isWriterLike(x.Call.Args[0].Type()):
+					// (also a constructor of the hashing writer that takes more than the writer)
 					chain = append(chain, "count")
 					ctors = append(ctors, x)
 					v = x.Call.Args[0]
@@ -488,6 +490,11 @@ func init() {
 						cw = call
 						continue
 					}
+					// another constructor of the hashing writer (one that also takes the seed)
+					if c.inRoot(sc) && sc.Blocks != nil && sc.Signature.Results().Len() == 1 && strings.HasSuffix(sc.Signature.Results().At(0).Type().String(), ".countHashWriter") && len(call.Call.Args) > 0 && isWriterLike(call.Call.Args[0].Type()) {
+						cw = call
+						continue
+					}
 					if funcFullName(sc) == "encoding/binary.Write" {
 						writes = append(writes, call)
 						writerOf[call] = call.Call.Args[0]
@@ -569,6 +576,28 @@ func init() {
 			for _, st := range storesToFieldOf(fn, cw, "crc") {
 				if ld, ok := st.Val.(*ssa.UnOp); ok && ld.Op == token.MUL && strings.HasSuffix(accessPath(ld.X), ".crc") && rootParam(ld.X) == ssa.Value(footerParam) && before(st, writes[0]) {
 					seeded = true
+				}
+			}
+			if !seeded {
+				// seeded by the constructor: it is handed footer.crc and stores that parameter into the crc field
+				if sc := cw.Call.StaticCallee(); sc != nil && sc.Blocks != nil {
+					for ai, a := range cw.Call.Args {
+						ld, ok := a.(*ssa.UnOp)
+						if !ok || ld.Op != token.MUL || !strings.HasSuffix(accessPath(ld.X), ".crc") || rootParam(ld.X) != ssa.Value(footerParam) || ai >= len(sc.Params) {
+							continue
+						}
+						for _, sb := range sc.Blocks {
+							for _, si := range sb.Instrs {
+								if st, ok := si.(*ssa.Store); ok && st.Val == ssa.Value(sc.Params[ai]) {
+									if fa, ok := st.Addr.(*ssa.FieldAddr); ok {
+										if _, fv := fieldAddrInfo(fa); fv != nil && fv.Name() == "crc" {
+											seeded = true
+										}
+									}
+								}
+							}
+						}
+					}
 				}
 			}
 			if !seeded {
